@@ -188,7 +188,7 @@ impl Oplog {
                     let mut entries_buff =
                         get_slices_checked(&existing, OplogSlot::Entries as usize)?.1;
                     let mut entries: Vec<Entry> = Vec::new();
-                    let mut partials: Vec<bool> = Vec::new();
+                    let mut partials: Vec<(bool, usize)> = Vec::new();
                     let mut entries_byte_length: usize = 0;
                     let header_bit = outcome.oplog.get_current_header_bit();
                     // An entry that fails its checksum was torn while being written and
@@ -206,12 +206,14 @@ impl Oplog {
                         entries.push(res.0);
                         entries_byte_length += entries_buff.len() - res.1.len();
                         entries_buff = res.1;
-                        partials.push(entry_outcome.partial_bit);
+                        partials.push((entry_outcome.partial_bit, entries_byte_length));
                     }
 
                     // Remove all trailing partial entries
-                    while !partials.is_empty() && partials[partials.len() - 1] {
+                    while let Some((true, _)) = partials.last() {
+                        partials.pop();
                         entries.pop();
+                        entries_byte_length = partials.last().map_or(0, |(_, end)| *end);
                     }
 
                     // New entries must be appended after the ones that were just read
